@@ -269,6 +269,8 @@ def run(tier):
       samples.append(r[3])
   rep.add_part('histories-x-callbacks', states=n, transitions=n, traces_validated_against_impl=n, evaluations=n,
                distinct_nontrivial=sum(r[2] for r in res), exhaustive=True, samples=samples)
+  from vf.harness import c09_sched  # pylint: disable=g-import-not-at-top
+  c09_sched.run_into(rep, tier)
   rep.assumptions = [
       'one generic Test (group with main phase X and a teardown phase, plug, measurement, log line) whose behaviour per run comes from '
       'the plan; 4 test_start modes x 9 X modes; histories of 1-2 (3 in thorough) consecutive execute() calls',
@@ -279,6 +281,9 @@ def run(tier):
 
 def replay(art):
   r = art['replay']
+  if r.get('part') == 'schedules':
+    from vf.harness import c09_sched  # pylint: disable=g-import-not-at-top
+    return c09_sched.replay(r)
   v, outs = run_history([tuple(p) for p in r['hist']], tuple(r['raising']))
   print('outcomes', outs)
   for b in v:
